@@ -55,6 +55,35 @@ M = [
      "        Square::from(square).flip_rank()\n", "        Square::from(square)\n"),
     ("C14_san_digit_arithmetic_underflows", "weechess-core/src/notation.rs",
      "                        '1' => query.set_destination_rank(Rank::ONE),", "                        '1' | '0' => query.set_destination_rank(Rank::from_index((r as usize) - ('1' as usize)).unwrap()),"),
+    # ---- round 3: mutants for the obligations on extracted text --------------------------------------------------------------
+    ("C17_root_hash_not_recorded_with_old_memory", "weechess-engine/src/searcher.rs",
+     "        state_history.increment(game_state_hash);\n",
+     "        if state_history.lookup(&game_state_hash).is_none() && best_mv.is_some() {\n            state_history.increment(game_state_hash);\n        }\n"),
+    ("C12_bestmove_promotion_letter_upper_case", "weechess-engine/src/uci.rs",
+     "                        String::from(c.to_ascii_lowercase())", "                        String::from(c)"),
+    ("C14_go_depth_argument_indexed_unchecked", "weechess-engine/src/uci.rs",
+     "                                if let Some(depth) = iter.next() {\n                                    if let Ok(depth) = usize::from_str_radix(depth, 10) {",
+     "                                if let Some(depth) = Some(&args[1]) {\n                                    if let Ok(depth) = usize::from_str_radix(depth, 10) {"),
+    ("C09_rook_lookup_shift_off_by_one", "weechess-core/src/attacks.rs",
+     "        let key = u64::wrapping_mul(occupancy, magic) >> (64 - data::ROOK_MAGIC_INDEXES[square]);\n        data::ROOK_MAGIC_TABLE",
+     "        let key = u64::wrapping_mul(occupancy, magic) >> (63 - data::ROOK_MAGIC_INDEXES[square]);\n        data::ROOK_MAGIC_TABLE"),
+    ("C09_bishop_mask_keeps_north_edge", "weechess-core/src/attacks.rs",
+     "            masks[*square] |= RAYS[Direction::NorthWest][*square]\n                & !(common::FILE_MASKS[File::A] | common::RANK_MASKS[Rank::EIGHT]);",
+     "            masks[*square] |= RAYS[Direction::NorthWest][*square]\n                & !(common::FILE_MASKS[File::A]);"),
+    ("C13_piece_squares_skips_the_king", "weechess-engine/src/eval/evaluate_piece_squares.rs",
+     "    for piece in Piece::ALL {\n        let piece_index = PieceIndex::new(*perspective, *piece);",
+     "    for piece in Piece::ALL.iter().filter(|p| **p != Piece::King) {\n        let piece_index = PieceIndex::new(*perspective, *piece);"),
+    ("C11_writer_run_length_not_reset", "weechess-core/src/notation.rs",
+     "                                write!(f, \"{}\", empty_squares)?;\n                                empty_squares = 0;",
+     "                                write!(f, \"{}\", empty_squares)?;\n                                empty_squares = empty_squares - empty_squares / 8 * 8;"),
+    ("C11_writer_castling_black_before_white", "weechess-core/src/notation.rs",
+     "                    if value.castle_rights(Color::White).queenside {\n                        write!(f, \"Q\")?;\n                    }\n                    if value.castle_rights(Color::Black).kingside {\n                        write!(f, \"k\")?;\n                    }",
+     "                    if value.castle_rights(Color::Black).kingside {\n                        write!(f, \"k\")?;\n                    }\n                    if value.castle_rights(Color::White).queenside {\n                        write!(f, \"Q\")?;\n                    }"),
+    ("C18_ucinewgame_keeps_memory_of_running_search", "weechess-engine/src/uci.rs",
+     "                    if let Some(search) = current_search.take() {\n                        search.wait_cancel();\n                    }\n\n                    // A new game must not inherit the search memory of the previous one\n                    previous_artifact = None;",
+     "                    previous_artifact = None;\n                    if let Some(search) = current_search.take() {\n                        previous_artifact = Some(search.wait_cancel());\n                    }"),
+    ("C15_access_stores_under_shifted_key", "weechess-engine/src/searcher.rs",
+     "        self.tables[index].write().unwrap().insert(hash, entry);", "        self.tables[index].write().unwrap().insert(hash >> 7, entry);"),
 ]
 os.makedirs(OUT, exist_ok=True)
 for name, rel, old, new in M:
